@@ -516,6 +516,97 @@ func randomPool(r *vh.RNG) *Pool {
 	return p
 }
 
+// selfReachesThroughContainer: result type t reaches itself along a path with at least one
+// container edge (array / map of result types, plain user type).
+func (p *Pool) selfReachesThroughContainer(t string) bool {
+	type st struct {
+		name string
+		c    bool
+	}
+	seen := map[st]bool{}
+	var walk func(n string, c bool) bool
+	walk = func(n string, c bool) bool {
+		ty := p.typ(n)
+		if ty == nil {
+			return false
+		}
+		for _, a := range ty.Attrs {
+			if !a.pointsTo() {
+				continue
+			}
+			nc := c || a.container()
+			if a.Ref == t && nc {
+				return true
+			}
+			k := st{a.Ref, nc}
+			if seen[k] {
+				continue
+			}
+			seen[k] = true
+			if walk(a.Ref, nc) {
+				return true
+			}
+		}
+		return false
+	}
+	return walk(t, false)
+}
+
+// containerCycle: some type of the pool reaches itself through a container edge.
+func (p *Pool) containerCycle() bool {
+	for _, t := range p.Types {
+		if p.selfReachesThroughContainer(t.Name) {
+			return true
+		}
+	}
+	return false
+}
+
+// metaOverrideMismatch: some attribute carries a type-level view that a view entry overrides
+// with another view (the memoised attribute then carries a view meta that is not its view).
+func (p *Pool) metaOverrideMismatch() bool {
+	for _, t := range p.Types {
+		for _, v := range t.Views {
+			for _, e := range v.Attrs {
+				if a := t.attr(e.Attr); a != nil && a.Meta != "" && e.View != "" && e.View != a.Meta {
+					return true
+				}
+			}
+		}
+	}
+	return false
+}
+
+// Envelopes of the main streams (each excluded class is a known finding with its own witness):
+//   tier A: expr.Project re-projects a memoised attribute through the aliasing of its copies
+//           (project-reprojects-memoised-attribute): needs a cycle through a container AND an
+//           attribute whose type-level view is overridden with another view;
+//   tier B: additionally no result type reaches itself through a container
+//           (self-reaching-result-type-loses-nested-attributes), and no cycle at all together
+//           with an overridden type-level view (the generators project copies).
+func (p *Pool) insideTierA() bool { return !(p.containerCycle() && p.metaOverrideMismatch()) }
+
+func (p *Pool) insideTierB() bool {
+	if !p.insideTierA() {
+		return false
+	}
+	// the generators project COPIES of the result types (DupAtt of the method result), whose
+	// cycles alias differently: there any cycle is enough for the re-projection finding
+	if p.metaOverrideMismatch() {
+		for _, t := range p.Types {
+			if p.reaches(t.Name, t.Name, map[string]bool{}) {
+				return false
+			}
+		}
+	}
+	for _, t := range p.Types {
+		if !t.Plain && p.selfReachesThroughContainer(t.Name) {
+			return false
+		}
+	}
+	return true
+}
+
 // hasContainers: some attribute is an array / map of result types or a plain user type.
 func (p *Pool) hasContainers() bool {
 	for _, t := range p.Types {
@@ -616,6 +707,15 @@ func corpusPools() []*Pool {
 			Views: []PView{{Name: "default", Attrs: []PEntry{e("i1"), e("i2")}}, {Name: "tiny", Attrs: []PEntry{e("i1")}}}},
 		{Name: "Outer", Attrs: []PAttr{{Name: "a", Kind: "str", Req: true}, {Name: "c", Kind: "mapres", Ref: "Inner"}, {Name: "c2", Kind: "mapres", Ref: "Inner"}},
 			Views: []PView{{Name: "default", Attrs: []PEntry{e("a"), e("c"), e("c2")}}, {Name: "tiny", Attrs: []PEntry{e("a"), e("c", "tiny"), e("c2")}}}}}})
+	// witness of the known finding project-reprojects-memoised-attribute: the memoised attribute
+	// of f03 (type-level view "mid", overridden with "default") becomes the element of g11; the
+	// copy of U1 that holds it is reached again through R2 -> U0 -> U1 and re-projected under "mid"
+	ps = append(ps, &Pool{Tag: "corpus:witness-reprojected-memo", Witness: "project-reprojects-memoised-attribute", Types: []*PType{
+		{Name: "R0", Attrs: []PAttr{{Name: "f03", Kind: "res", Ref: "R1", Meta: "mid"}}, Views: []PView{{Name: "default", Attrs: []PEntry{e("f03", "default")}}}},
+		{Name: "R1", Attrs: []PAttr{{Name: "f11", Kind: "str"}}, Views: []PView{{Name: "default", Attrs: []PEntry{e("f11")}}, {Name: "mid", Attrs: []PEntry{e("f11")}}}},
+		{Name: "R2", Attrs: []PAttr{{Name: "f22", Kind: "user", Ref: "U0"}}, Views: []PView{{Name: "default", Attrs: []PEntry{e("f22")}}, {Name: "ext", Attrs: []PEntry{e("f22")}}}},
+		{Name: "U0", Plain: true, Attrs: []PAttr{{Name: "g01", Kind: "coll", Ref: "R0"}, {Name: "g02", Kind: "user", Ref: "U1"}}},
+		{Name: "U1", Plain: true, Attrs: []PAttr{{Name: "g11", Kind: "arrres", Ref: "R1"}, {Name: "g13", Kind: "mapres", Ref: "R2"}}}}})
 	// type-level view meta x per-view override, all four combinations, single and collection
 	// (buildView appends the override to the meta list: the LAST one counts)
 	in3 := func() *PType {
